@@ -341,6 +341,27 @@ def deposit_grid():
                f"enable svc=svc prov={P2} owner={O1} dep={dep - 10000 if dep > 10000 else '-'}",
                "endblock dt=5000000000"]
         out.append((f"grid:deposit:time-promotion:D{dep}", ops))
+    # price x multiple beyond the machine integers: a product taken in 64 bits wraps (2^63: negative, 2^64: small) while
+    # the true minimum is far above the deposit offered; bind, a price raise of an available binding, and enable
+    for price, mult, dep in ((10 ** 17, 200, 2 * 10 ** 18),            # 2*10^19 wraps to about 1.55*10^18 in int64
+                             (92233720368547759, 200, 6000),             # 2^64 + 184
+                             (46116860184273880, 200, 7000),             # 2^63 + 384: negative in int64
+                             (2 ** 62 + 1, 4, 10 ** 6),                  # 2^64 + 4
+                             (3 * 10 ** 9, 3 * 10 ** 9, 10 ** 12)):      # 9*10^18 < 2^63 < 2^64: no wrap, rejected as well
+        for how in ("bind", "update", "enable"):
+            ops = [genesis(mult=mult), f"fund acct={O1} amt={10 ** 30}", f"define name=svc author={O1} schema=ok"]
+            if how == "bind":
+                ops.append(f"bind svc=svc prov={P1} owner={O1} dep={dep} price={price}stake promT=- promV=- qos=1")
+            else:
+                ops.append(f"bind svc=svc prov={P1} owner={O1} dep={max(dep, 6000)} price=1stake promT=- promV=- qos=1")
+                if how == "update":
+                    ops.append(f"update svc=svc prov={P1} owner={O1} dep=- price={price}stake promT=- promV=- qos=0")
+                else:
+                    ops += [f"disable svc=svc prov={P1} owner={O1}",
+                            f"update svc=svc prov={P1} owner={O1} dep=- price={price}stake promT=- promV=- qos=0",
+                            f"enable svc=svc prov={P1} owner={O1} dep=-"]
+            ops.append("endblock dt=5000000000")
+            out.append((f"grid:deposit:wrap:{how}:p{price}:m{mult}", ops))
     return out
 
 
